@@ -57,6 +57,13 @@ CLAIMS = {
          "srcfacts regenerates from loadCRL and updateCrlEntry on every run; the 3x3x4x2 matrix (x fetch mode x strict) run on the real "
          "validator plus the provision-time crl_urls path.",
          "Coq proof over source-generated policy + exhaustive matrix correspondence", "DESIGN.md §3 C16", ""),
+ "C12": ("Coq theorems C12_crash_consistent (for every atomic file-system action of an intake — download, each staging write, acceptance, "
+         "each of the five swap steps — the image after restart holds the old complete list, nothing, or the new complete accepted list, and "
+         "no temp artefact), C12_disk_invariant (every reachable disk state holds only whole accepted lists), C12_restart_loaded; real "
+         "copies of the work directory taken at every staging write and at the five hook sites of LevelDbStore.Update, restarted with "
+         "origins down and compared with the model.",
+         "Coq proof over the crash-point model + crash-image correspondence via hook sites", "DESIGN.md §3 C12",
+         "process death is emulated by copying the work directory at the instant (no power-loss semantics); LevelDB's own recovery of a copied directory is library behaviour, exercised not proved."),
  "C03": ("Coq theorems C03_table/C03_enabled/C03_iff/C03_effects over a model whose mode table, enable predicates and "
          "VerifyClientCertificate stage list are regenerated from the Go source on every run; plus an exhaustive 1536-cell "
          "table of real handshakes evaluated against the model (vm_compute) and against the property's own wording.",
